@@ -30,6 +30,10 @@ def prepare_all(tier, seed):
     ok, log = gen.build_corpus(tunits + punits, f"all-{tier}-{seed}")
     if not ok:
         raise c.ToolError("gencases does not build:\n" + log[-5000:])
+    # the corpora hold no quarantined shape: every unit must build (whether IDL in general builds is C14's statement)
+    for u in tunits + punits:
+        if not u.ok:
+            raise c.ToolError(f"corpus unit {u.uid} ({u.idl_path}) did not build [{u.status}]; the generated-code checks cannot run:\n{u.output[-1500:]}")
     return tss, tunits, pss, punits
 
 
